@@ -269,33 +269,6 @@ def wfToks (ts : List XTok) : Bool := ts.all wfTok
 
 /-! ## triggers of the known findings (narrow syntactic predicates on the input tokens) -/
 
-/-- some numeric character reference in `d` satisfies `p value (bytes behind the reference)` -/
-def anyNumRef (p : Nat → List Char → Bool) : List Char → Bool
-  | [] => false
-  | c :: r =>
-    (c == '&' && (match numRef r with
-      | some (v, n) => p v (r.drop n)
-      | none => false)) || anyNumRef p r
-
-def isDq (v : List Char) : Bool := 2 ≤ v.length && v.head? == some '"' && v.getLast? == some '"'
-
-def followedByRefChar : List Char → Bool
-  | k :: _ => isAl k || isDig k || k == '#'
-  | [] => false
-
-/-- K-C06-1: double-quoted attribute value with a numeric reference to `<`, or to `&` not followed by
-`[A-Za-z0-9#]` (those are decoded to the bare character) -/
-def trigAttrRefMarkup (ts : List XTok) : Bool :=
-  ts.any fun
-    | .attr _ v => isDq v && anyNumRef (fun n after => n == 60 || (n == 38 && !followedByRefChar after)) v
-    | _ => false
-
-/-- K-C06-2: double-quoted attribute value with a numeric reference to TAB, LF or CR -/
-def trigAttrRefWs (ts : List XTok) : Bool :=
-  ts.any fun
-    | .attr _ v => isDq v && anyNumRef (fun n _ => n == 9 || n == 10 || n == 13) v
-    | _ => false
-
 def hasCdEndD : List Ev → Bool
   | .ch (.c 93) :: .ch (.c 93) :: .ch (.c 62) :: _ => true
   | _ :: r => hasCdEndD r
@@ -352,8 +325,6 @@ def trigKeepEmpty (keep : Bool) : List XTok → Bool
   | _ :: r => trigKeepEmpty keep r
 
 def triggers (keep : Bool) (ts : List XTok) : List String :=
-  (if trigAttrRefMarkup ts then ["attrRefMarkup"] else []) ++
-  (if trigAttrRefWs ts then ["attrRefWs"] else []) ++
   (if trigCdEnd ts then ["cdEnd"] else []) ++
   (if trigCdataJoin ts then ["cdataJoin"] else []) ++
   (if trigPiData false ts then ["piData"] else []) ++
